@@ -311,7 +311,7 @@ fn diff_trees(clean: &BTreeMap<String, Vec<u8>>, now: &BTreeMap<String, Vec<u8>>
 
 fn gen_case(seed_prog: &crate::campaign::ProgramCase, tape: &[u16]) -> Case {
     let mut t = Tape::new(tape);
-    let prof = Profile { max_rules: 4, max_stmts: 5, ..Profile::free() };
+    let prof = Profile { max_rules: 4, max_stmts: 5, max_fanout: 4, ..Profile::free() };
     let nv = 2 + t.pick(3);
     let mut versions = vec![seed_prog.source.clone()];
     for i in 1..nv {
